@@ -4,7 +4,7 @@ report every check that does not exit 0, and ALWAYS restore /repo.
    tools/run_benign.py <patch.diff> [props...]"""
 import os, shutil, subprocess, sys
 HERE = os.path.dirname(os.path.dirname(os.path.abspath(__file__)))
-patch = sys.argv[1]
+patch = os.path.abspath(sys.argv[1])
 props = sys.argv[2:] or ["C%02d" % i for i in range(1, 21)]
 st = subprocess.run(["git", "-C", "/repo", "status", "--porcelain", "--untracked-files=no"], capture_output=True, text=True).stdout.strip()
 if st:
